@@ -113,14 +113,16 @@ class _LoggingLock(vclock.VLock):
 def debts_of(rl):
     """(read debt, write debt) as exact Fractions, or None where the attribute cannot be identified."""
     out = {'r': None, 'w': None}
-    for k, v in vars(rl).items():
-        if k in ('read_limit', 'write_limit') or isinstance(v, bool):
-            continue
-        if isinstance(v, (int, float, Fraction)):
-            if 'read' in k:
-                out['r'] = Fraction(v)
-            elif 'write' in k:
-                out['w'] = Fraction(v)
+    for d, word in (('r', 'read'), ('w', 'write')):
+        cands = [(k, v) for k, v in vars(rl).items()
+                 if word in k and 'limit' not in k and not isinstance(v, bool) and isinstance(v, (int, float, Fraction))]
+        if len(cands) > 1:
+            cands = [(k, v) for k, v in cands if any(w in k for w in ('amort', 'debt', 'sleep'))]
+        if len(cands) == 1:
+            v = cands[0][1]
+            if isinstance(v, float) and (v != v or v in (float('inf'), float('-inf'))):
+                continue
+            out[d] = Fraction(v)
     return out
 
 
